@@ -44,9 +44,41 @@ func c13lease(cw *caseWriter, cfg []srv, ds []int, L time.Duration) {
 	}
 	// buckets of a tenth of the lease, rounded (contacts sit on multiples of it: +-L/20 of jitter is absorbed)
 	b := func(d time.Duration) uint64 { return uint64((d + L/20) / (L / 10)) }
-	cw.emit(cw.tag("l"), 13, in, []uint64{b2u(sd), b(md), b(ni)}, true)
+	tag := cw.tag("l")
+	cw.emit(tag, 13, in, []uint64{b2u(sd), b(md), b(ni)}, true)
 	if sd {
 		cw.stat("c13_stepdowns", 1)
+	}
+	// the property's own predicate, from the inputs alone: the voters heard from within the lease (the leader itself only
+	// if it is a voter of the configuration) - a strict majority of the voters keeps it, anything less deposes it.
+	// Contacts sit on multiples of a tenth of the lease and never within 20% of the boundary, so the count is exact.
+	voters, fresh := 0, 0
+	k = 0
+	for _, sv := range cfg {
+		if sv.id == 1 {
+			if sv.suff == 0 {
+				voters++
+				fresh++
+			}
+			continue
+		}
+		d := ds[k%len(ds)]
+		k++
+		if sv.suff == 0 {
+			voters++
+			if d < 10 {
+				fresh++
+			}
+		}
+	}
+	if voters > 0 {
+		quorum := voters/2 + 1
+		if fresh < quorum && !sd {
+			cw.monitor("C13", tag, "leader-kept-lease-without-voter-majority", "checkLeaderLease kept leadership with %d of %d voters in contact within the lease (quorum %d); configuration %v, contact ages in tenths of the lease %v", fresh, voters, quorum, cfg, ds)
+		}
+		if fresh >= quorum && sd {
+			cw.monitor("C13", tag, "leader-deposed-by-lease-check-with-voter-majority", "checkLeaderLease stepped down although %d of %d voters were in contact within the lease (quorum %d); configuration %v, contact ages %v", fresh, voters, quorum, cfg, ds)
+		}
 	}
 }
 
